@@ -6,6 +6,7 @@ From PS Require Import Model.StackTypes Model.Stack Model.StackIO.
 From PS Require Import Spec.TraceSpec Spec.StoreSpec Spec.AnnSpec.
 From PS Require Import Spec.C19Spec Spec.C07Spec Spec.C16Spec Spec.C01Spec Spec.C02Spec.
 From PS Require Model.ServiceStack Spec.C17Spec.
+From PS Require Import Model.System Spec.C04Spec.
 
 Definition bad : sexp := L [A 255; A 255; A 255].
 
@@ -118,6 +119,13 @@ Definition check17_op (arg : sexp) : option sexp :=
   | _ => None
   end.
 
+Definition check04_op (arg : sexp) : option sexp :=
+  match arg with
+  | L [sc; ta; tb] => let? sc' := d_sys_scenario sc in let? ta' := d_trace ta in let? tb' := d_trace tb in
+                      Some (L (map A (check_C04 sc' ta' tb')))
+  | _ => None
+  end.
+
 Definition dispatch (op : N) (arg : sexp) : sexp :=
   if (1900 <? op) && (op <? 2000) then of_opt (dispatch_config op arg)
   else if (100 <? op) && (op <? 300) then of_opt (dispatch_codec op arg)
@@ -126,5 +134,7 @@ Definition dispatch (op : N) (arg : sexp) : sexp :=
   else if op =? 3001 then of_opt (run_op arg)
   else if op =? 3201 then of_opt (ServiceStack.srun_op arg)
   else if op =? 3217 then of_opt (check17_op arg)
+  else if op =? 3301 then of_opt (sys_run_op arg)
+  else if op =? 3304 then of_opt (check04_op arg)
   else if (3001 <? op) && (op <? 3100) then of_opt (dispatch_check op arg)
   else bad.
